@@ -38,6 +38,8 @@ type Options struct {
 	PayloadGen       func(t *rapid.T) []byte // overrides the payload generator
 	Fixed            *Fixed                  // when set, nothing is drawn by New
 	Backing          kit.StoreBacking        // a real metastore (over a fake database) holds the rows; see kit.Store.Backing
+	NewBacking       func() kit.StoreBacking // like Backing, for scenarios that are executed many times: a fresh one per world
+	PerProcRegion    bool                    // with a region suffix: the processes run in different regions over one (global) table
 }
 
 // Fixed pins everything New would otherwise draw (used for re-executable scenarios).
@@ -113,6 +115,7 @@ type Event struct {
 // World is the state of one generated history.
 type World struct {
 	ExtClockAhead time.Duration // see ExternalRotate
+	ownBacking    bool
 
 	T       *rapid.T
 	Opt     Options
@@ -287,6 +290,10 @@ func New(t *rapid.T, opt Options) *World {
 	w.Store = kit.NewStore(w.Log)
 	w.Store.Suffix = opt.Suffix
 	w.Store.Backing = opt.Backing
+	if w.Store.Backing == nil && opt.NewBacking != nil {
+		w.Store.Backing = opt.NewBacking()
+		w.ownBacking = true
+	}
 	w.KMS = kit.NewSpyKMS(w.Log)
 	w.AEAD = kit.NewSpyAEAD()
 	w.AEAD.NoRetain = opt.NoRetainAEAD
@@ -341,6 +348,13 @@ func New(t *rapid.T, opt Options) *World {
 				p.Policy.ExpireKeyAfter, p.Policy.RevokeCheckInterval, p.Policy.CreateDatePrecision = first.ExpireKeyAfter, first.RevokeCheckInterval, first.CreateDatePrecision
 			}
 		}
+		if opt.PerProcRegion && opt.Suffix != "" && i > 0 && rapid.Bool().Draw(t, "otherRegion") {
+			// this process runs in another region of the same deployment (one global key table)
+			if w.Store.SuffixFor == nil {
+				w.Store.SuffixFor = map[string]string{}
+			}
+			w.Store.SuffixFor[p.Name] = "eu-west-1"
+		}
 		w.startProc(p)
 		w.Procs = append(w.Procs, p)
 	}
@@ -373,6 +387,9 @@ func (w *World) Now() int64 { return verifhook.Now().UnixNano() }
 func (w *World) Teardown() {
 	for _, p := range w.Procs {
 		w.closeProc(p)
+	}
+	if d, ok := w.Store.Backing.(interface{ Release() }); ok && w.ownBacking {
+		d.Release()
 	}
 	verifhook.RemoveClock()
 }
